@@ -20,6 +20,7 @@ type member struct {
 type enumScen struct {
 	Kind    string   `json:"kind"`
 	Tr      []string `json:"tr"`
+	Tr2     []string `json:"tr2"`
 	Same    bool     `json:"same"`
 	Src     []member `json:"src"`
 	Tgt     []member `json:"tgt"`
@@ -131,6 +132,9 @@ func cmdEnum(args []string) {
 		if len(s.Tr) == 2 {
 			fmt.Fprintf(&src, "\t// goverter:enum:transform regex %s %s\n", s.Tr[0], s.Tr[1])
 		}
+		if len(s.Tr2) == 2 {
+			fmt.Fprintf(&src, "\t// goverter:enum:transform regex %s %s\n", s.Tr2[0], s.Tr2[1])
+		}
 		res := tt
 		if s.RootErr {
 			res = "(" + tt + ", error)"
@@ -239,7 +243,11 @@ func cmdEnum(args []string) {
 		if tr == nil {
 			tr = []string{}
 		}
-		return map[string]any{"id": i, "kind": s.Kind, "tr": tr, "same": s.Same, "src": s.Src, "tgt": s.Tgt, "map": m, "unknown": s.Unknown, "rootErr": s.RootErr, "pos": s.Pos, "enumOn": s.EnumOn}
+		tr2 := s.Tr2
+		if tr2 == nil {
+			tr2 = []string{}
+		}
+		return map[string]any{"id": i, "kind": s.Kind, "tr": tr, "tr2": tr2, "same": s.Same, "src": s.Src, "tgt": s.Tgt, "map": m, "unknown": s.Unknown, "rootErr": s.RootErr, "pos": s.Pos, "enumOn": s.EnumOn}
 	}
 	nOK := 0
 	for i, o := range outs {
